@@ -147,8 +147,8 @@ Definition is_valid_exemplar_metric (ftype fname : str) (s : sample) : bool :=
   || (contains_sub ftype S_histogram && ends_with S_bucket (s_name s))
   || str_eqb (s_name s) fname.
 
-(* exemplar label NAMES are written raw by the pinned source (finding F3); [exq] = true models the
-   repaired source which passes them through escape_label_name like sample label names *)
+(* exemplar label NAMES and the unit are written raw by the pinned source (findings F3, F5); [exq] = true
+   models the repaired source: names through escape_label_name like sample label names, unit escaped *)
 Definition exemplar_str (exq : bool) (e : exemplar) : str :=
   let pair (kv : str * str) :=
     (if exq then escape_label_name (fst kv) else fst kv) ++ [EQS] ++ quote (escape_chain (snd kv)) in
@@ -178,7 +178,7 @@ Definition om_family (exq : bool) (f : family) : res str :=
   do ss <- res_concat_map (om_sample_line exq (f_type f) (f_name f)) (f_samples f);
   Ok (S_HELP ++ escape_metric_name (f_name f) ++ [SP] ++ escape_chain (f_doc f) ++ [LF]
       ++ S_TYPE ++ escape_metric_name (f_name f) ++ [SP] ++ f_type f ++ [LF]
-      ++ (match f_unit f with [] => [] | u => S_UNIT ++ escape_metric_name (f_name f) ++ [SP] ++ u ++ [LF] end)
+      ++ (match f_unit f with [] => [] | u => S_UNIT ++ escape_metric_name (f_name f) ++ [SP] ++ (if exq then escape_chain u else u) ++ [LF] end)
       ++ ss).
 
 Definition om_render (exq : bool) (fams : list family) : res str :=
